@@ -44,19 +44,20 @@ type Rec struct {
 
 // ChildOpts are the options of a child process.
 type ChildOpts struct {
-	Prop     *Property
-	Tier     string
-	Seed     uint64
-	Shard    int
-	Of       int
-	OutDir   string
-	Only     string          // run only this unit (replay / pinning)
-	ListOnly bool            // only write the unit names to units.txt
-	PerCase  bool            // journal every guarded call before making it
-	Skip     map[string]bool // units to skip (already done or poisoned)
-	Tag      string          // file name tag (distinguishes reruns)
-	BudgetS  float64
-	MemLimit uint64
+	Prop      *Property
+	Tier      string
+	Seed      uint64
+	Shard     int
+	Of        int
+	OutDir    string
+	Only      string          // run only this unit (replay / pinning)
+	ListOnly  bool            // only write the unit names to units.txt
+	StopAfter string          // stop after this unit has run (re-execution of a shard prefix)
+	PerCase   bool            // journal every guarded call before making it
+	Skip      map[string]bool // units to skip (already done or poisoned)
+	Tag       string          // file name tag (distinguishes reruns)
+	BudgetS   float64
+	MemLimit  uint64
 }
 
 // Ctx is handed to Property.Run in a child.
@@ -328,6 +329,9 @@ func (c *Ctx) Unit(name string, f func()) {
 	c.write(Rec{T: "end", Unit: name, Seq: seq, Ms: time.Since(t0).Milliseconds()})
 	c.flush()
 	c.inUnit = false
+	if c.o.StopAfter != "" && name == c.o.StopAfter {
+		c.stopped = true
+	}
 }
 
 // SetBudget multiplies the CPU budget of guarded calls for the rest of the
